@@ -346,6 +346,9 @@ Shapes(ty) ==
     {[k |-> c, s |-> "", args |-> <<"num", "num">>] : c \in {"EQ", "NE", "LT", "GT", "LE", "GE"}}
     \cup {[k |-> "And", s |-> "", args |-> <<"bool", "bool">>], [k |-> "Or", s |-> "", args |-> <<"bool", "bool">>],
           [k |-> "Not", s |-> "", args |-> <<"bool">>]}
+    \* lnodes' typing (merge_dtypes) also admits equality between two truth values: a comparison, a negation or a
+    \* connective as an operand of == / != (Python chains comparisons and binds `not` loosest)
+    \cup {[k |-> c, s |-> "", args |-> <<"bool", "bool">>] : c \in {"EQ", "NE"}}
 
 DOf(sh, ty) == IF ty = "bool" THEN "BOOL" ELSE IF ty = "int" THEN "INT" ELSE "REAL"
 
